@@ -290,6 +290,7 @@ fn variables_history(t: &mut Tape) -> CaseOutcome {
     let mut outer_m: VModel = VModel::new();
     let mut nested_saw_outer = false;
     let mut removed = false;
+    let mut three_levels = false;
 
     fn step(
         t: &mut Tape,
@@ -396,6 +397,46 @@ fn variables_history(t: &mut Tape) -> CaseOutcome {
                 return fail("vars_get", format!("nested.get {} is {:?}, model {:?}", name, got, expected), &log);
             }
         }
+        // a third level on top of the nested set: sees both, changes neither
+        if t.chance(1, 2) {
+            let nested_before = vars_iter(&nested);
+            let mut visible: VModel = outer_m.clone();
+            for (k, v) in &nested_m {
+                visible.insert(k.clone(), v.clone());
+            }
+            {
+                let mut inner = Variables::nested(&nested);
+                let mut inner_m = VModel::new();
+                log.push("inner = Variables::nested(&nested)".into());
+                three_levels = true;
+                let n3 = 1 + t.choose(40);
+                for _ in 0..n3 {
+                    if let Some(f) = step(t, &mut inner, &mut inner_m, Some(&visible), &mut log, "inner", &mut nested_saw_outer, &mut removed) {
+                        return f;
+                    }
+                    if vars_iter(&nested) != nested_before || vars_iter(&outer) != outer_before {
+                        return fail("vars_outer_changed", "an enclosing set changed through the innermost set".to_string(), &log);
+                    }
+                }
+                for name in NAMES {
+                    let got = inner.get(&Identifier::from(name)).cloned();
+                    let expected = inner_m.get(name).or_else(|| visible.get(name));
+                    if got.as_ref() != expected {
+                        return fail("vars_get", format!("inner.get {} is {:?}, model {:?}", name, got, expected), &log);
+                    }
+                }
+            }
+            log.push("drop(inner)".into());
+            if vars_iter(&nested) != nested_before {
+                return fail("vars_outer_changed", "the nested set changed during the innermost set's lifetime".to_string(), &log);
+            }
+            // the middle set is still usable
+            for _ in 0..t.choose(6) {
+                if let Some(f) = step(t, &mut nested, &mut nested_m, Some(&outer_m), &mut log, "nested", &mut nested_saw_outer, &mut removed) {
+                    return f;
+                }
+            }
+        }
     }
     log.push("drop(nested)".into());
     let after = vars_iter(&outer);
@@ -409,6 +450,9 @@ fn variables_history(t: &mut Tape) -> CaseOutcome {
         }
     }
     let mut labels = vec!["variables-history".to_string()];
+    if three_levels {
+        labels.push("three-levels".into());
+    }
     if nested_saw_outer {
         labels.push("nested-read-outer".into());
     }
